@@ -163,6 +163,7 @@ def r1_r2_r5(ctx):
             # falsy request -> not dispatched (gthread/async test `if not req`)
             ctx.check("C05.R2", okk, key(f, "dispatch-fresh-request"), site(f, c), "handle_request can be called with a request that was not returned by next(parser) in this iteration",
                       "req = next(parser) dominates dispatch")
+    stale_request(ctx)
     # who may call the application
     n = 0
     for f in repo.funcs():
@@ -177,6 +178,35 @@ def r1_r2_r5(ctx):
     f = ctx.fn(repo.func("gunicorn.workers.gthread.ThreadWorker.enqueue_req"))
     sub = [c for c in method_calls(f, "submit") if c.args and repo.resolve(f.module, f, c.args[0]) == "self.handle"]
     ctx.check("C05.R5", bool(sub), key(f, "pool-entry"), site(f), "the thread pool entry point is not self.handle", "tpool.submit(self.handle, conn)")
+
+
+def stale_request(ctx):
+    repo = ctx.repo
+    # a request object never survives into the next iteration of a keep-alive loop: handle_error(req, ..) must
+    # not be given the previous, already answered and logged, request when the *next* parse fails
+    for q in HANDLES:
+        f = repo.func(q)
+        g = f.cfg
+        for c in [x for x in walk_own(f.node) if isinstance(x, ast.Call) and isinstance(x.func, ast.Name) and x.func.id == "next"]:
+            loop = f.module.enclosing(c, (ast.While, ast.For))
+            st = f.module.enclosing(c, ast.Assign)
+            if loop is None or st is None or not isinstance(st.targets[0], ast.Name):
+                continue
+            R = st.targets[0].id
+            resets = [s for s in stores_to_name(f, R) if isinstance(s.ast, ast.Assign) and const(s.ast.value, NO) is None and any(a is loop for a in f.module.ancestors(s.ast))]
+            hr = [n for cc in walk_own(f.node) if isinstance(cc, ast.Call) and (repo.call_target(f.module, f, cc) or "").endswith(".handle_request") and any(a is loop for a in f.module.ancestors(cc)) for n in nodes_with(f, cc)]
+            nx = nodes_with(f, c)
+            bad = None
+            for h in hr:
+                for b, l in h.out:
+                    if l == "exc":
+                        continue
+                    p = g.path(b, nx, without_nodes=resets, follow_exc=False)
+                    if p is not None or b in nx:
+                        bad = h
+            ctx.check("C05.R2", bad is None, key(f, "stale-request-in-loop"), site(f, c),
+                      "in the keep-alive loop `%s` still holds the previous (answered) request when next(parser) is called again: if that parse fails, handle_error() gets the old request "
+                      "and writes a second access-log record / error status for it" % R, "`%s = None` before every next(parser)" % R)
 
 
 def r3(ctx):
@@ -219,6 +249,16 @@ def r3(ctx):
             if p is not None:
                 bad = p
         ctx.check("C05.R3", bad is None, key(f, "definitely-assigned|" + var), site(f), "`%s` can be used unassigned in handle_error" % v, "definitely assigned", path=bad and g.fmt_path(bad))
+    # the peer address may be '' (AF_UNIX): it is normalised before anything subscripts it
+    ADDR = f.params[3]
+    normz = [s for s in stores_to_name(f, ADDR) if isinstance(s.ast, ast.Assign) and isinstance(s.ast.value, ast.BoolOp) and isinstance(s.ast.value.op, ast.Or)
+             and isinstance(s.ast.value.values[-1], ast.Tuple)]
+    subs = [n for n in g.nodes if n not in normz and any(isinstance(x, ast.Subscript) and isinstance(x.value, ast.Name) and x.value.id == ADDR for root in n.cover for x in ast.walk(root))]
+    if subs:
+        bad = [u for u in subs if not any(g.dominates(z, u, follow_exc=False) for z in normz)]
+        ctx.check("C05.R3", not bad, key(f, "addr-normalised"), site(f, bad[0] if bad else subs[0]),
+                  "`%s[..]` is evaluated on a path where the unix-socket peer address ('') was not normalised: IndexError inside handle_error escapes the worker's last-resort handler "
+                  "(no error reply; the sync worker dies)" % ADDR, "addr = addr or ('', -1) dominates every addr[..]")
     # informational: ParseException subclasses outside the tuple end as 500
     pe = [c for c in repo.classes() if c.module.name == ERR and repo.is_subclass(c.qualname, ERR + ".ParseException") and c.qualname != ERR + ".ParseException"]
     missing = [c.name for c in pe if not any(repo.is_subclass(c.qualname, t) for t in T)]
